@@ -194,6 +194,10 @@ pub fn check_row_activities(
     }
 }
 
+fn runaway(sol: &Sol) -> bool {
+    sol.value.abs() > 1e6 || sol.assignment.iter().any(|(_, v)| v.abs() > 1e6)
+}
+
 fn within_gap(value: f64, opt: f64, gap: f64) -> bool {
     (value - opt).abs() <= gap * value.abs().max(opt.abs()) + TOL * opt.abs().max(1.0)
 }
@@ -238,11 +242,12 @@ pub fn judge_c05(m: &GenModel, truth: Verdict, cfg: &RunCfg, res: &RunResult) ->
                         ));
                     }
                 }
-                // the generated data is small (|coefficients| <= 15): a "solution" of
-                // magnitude 1e12 and more is an interior-point iterate that ran away, a
+                // the generated data is small (|coefficients| <= 15, vertices with
+                // coordinates below 1e3): a "solution" whose objective or coordinates have
+                // magnitude 1e6 and more is an interior-point iterate that ran away, a
                 // different failure from a plausible-looking wrong answer
                 Verdict::Infeasible => out.push(f(
-                    if sol.value.abs() > 1e12 {
+                    if runaway(sol) {
                         "solution-for-infeasible:huge"
                     } else {
                         "solution-for-infeasible"
@@ -250,7 +255,7 @@ pub fn judge_c05(m: &GenModel, truth: Verdict, cfg: &RunCfg, res: &RunResult) ->
                     format!("returned a solution (value {}) for an infeasible model", sol.value),
                 )),
                 Verdict::Unbounded => out.push(f(
-                    if sol.value.abs() > 1e12 {
+                    if runaway(sol) {
                         "optimum-for-unbounded:huge"
                     } else {
                         "optimum-for-unbounded"
